@@ -46,6 +46,10 @@ pub struct MaintCase {
     /// user searches: (time s, announce, hash selector)
     pub searches: Vec<(u32, bool, u8)>,
     pub rt_seed: u64,
+    /// IPv4 nodes only: the first bootstrap contact is given a second time in its IPv4-mapped
+    /// IPv6 spelling (`[::ffff:a.b.c.d]:port`), which an IPv4 socket refuses to send to
+    #[serde(default)]
+    pub mapped_alias: bool,
 }
 
 pub struct Sample {
@@ -79,7 +83,16 @@ pub fn run_maint(c: &MaintCase, sample_ms: u64, probe_ms: u64) -> Trace {
     rt.block_on(async {
         let node = fam_addr(c.v6, 1, 6881);
         let puppets: Vec<(Id, SocketAddr)> = (0..c.puppets.len()).map(|i| (puppet_id(i), fam_addr(c.v6, 100 + i as u16, if c.puppets[i].unsendable { 0 } else { 7000 + i as u16 }))).collect();
-        let bad: Vec<SocketAddr> = puppets.iter().zip(&c.puppets).filter(|(_, s)| s.unsendable).map(|(p, _)| p.1).collect();
+        let mut bad: Vec<SocketAddr> = puppets.iter().zip(&c.puppets).filter(|(_, s)| s.unsendable).map(|(p, _)| p.1).collect();
+        let mapped: Option<SocketAddr> = if c.mapped_alias && !c.v6 {
+            c.puppets.iter().zip(&puppets).find(|(s, _)| s.is_contact).and_then(|(_, p)| match p.1 {
+                SocketAddr::V4(a) => Some(SocketAddr::new(std::net::IpAddr::V6(a.ip().to_ipv6_mapped()), a.port())),
+                _ => None,
+            })
+        } else {
+            None
+        };
+        bad.extend(mapped);
         let net = SimNet::new(Box::new(move |d: &Dgram| if d.from == node && bad.contains(&d.to) { Fate::SendError } else { Fate::Deliver(vec![Duration::ZERO]) }));
         let specs = Arc::new(c.puppets.clone());
         for (i, (id, a)) in puppets.iter().enumerate() {
@@ -129,7 +142,11 @@ pub fn run_maint(c: &MaintCase, sample_ms: u64, probe_ms: u64) -> Trace {
                 });
             }
         }
-        let contacts: Vec<SocketAddr> = c.puppets.iter().zip(&puppets).filter(|(s, _)| s.is_contact).map(|(_, p)| p.1).collect();
+        let mut contacts: Vec<SocketAddr> = c.puppets.iter().zip(&puppets).filter(|(s, _)| s.is_contact).map(|(_, p)| p.1).collect();
+        if let (Some(alias), Some(SocketAddr::V4(first))) = (mapped.as_ref(), contacts.first().copied()) {
+            debug_assert_eq!(*alias, SocketAddr::new(std::net::IpAddr::V6(first.ip().to_ipv6_mapped()), first.port()));
+            contacts.push(*alias);
+        }
         let dht = start_node(&net, &NodeCfg { addr: node, id: NODE_ID, read_only: false, nodes: contacts, routers: vec![], announce_port: None });
         for (at, announce, h) in &c.searches {
             let d = dht.clone();
@@ -194,6 +211,11 @@ pub fn maint_case(min_secs: u32, max_secs: u32, with_searches: bool, max_puppets
 
 /// `with_unsendable`: some puppets (1 in 8) get an address the node cannot send to
 pub fn maint_case_u(min_secs: u32, max_secs: u32, with_searches: bool, max_puppets: usize, with_unsendable: bool) -> BoxedStrategy<MaintCase> {
+    maint_case_um(min_secs, max_secs, with_searches, max_puppets, with_unsendable, false)
+}
+
+/// `with_mapped`: 30 % of the cases give the first contact a second time in IPv4-mapped spelling
+pub fn maint_case_um(min_secs: u32, max_secs: u32, with_searches: bool, max_puppets: usize, with_unsendable: bool, with_mapped: bool) -> BoxedStrategy<MaintCase> {
     (min_secs..max_secs)
         .prop_flat_map(move |secs| {
             (
@@ -205,9 +227,10 @@ pub fn maint_case_u(min_secs: u32, max_secs: u32, with_searches: bool, max_puppe
                 any::<u64>(),
                 any::<bool>(),
                 vec(prop::bool::weighted(if with_unsendable { 0.125 } else { 0.0 }), max_puppets),
+                prop::bool::weighted(if with_mapped { 0.3 } else { 0.0 }),
             )
         })
-        .prop_map(|(v6, mut puppets, gossip, secs, searches, rt_seed, single, unsendable)| {
+        .prop_map(|(v6, mut puppets, gossip, secs, searches, rt_seed, single, unsendable, mapped_alias)| {
             for (p, u) in puppets.iter_mut().zip(unsendable) {
                 if u {
                     p.unsendable = true;
@@ -225,7 +248,7 @@ pub fn maint_case_u(min_secs: u32, max_secs: u32, with_searches: bool, max_puppe
             if !puppets.iter().any(|p| p.is_contact) {
                 puppets[0].is_contact = true;
             }
-            MaintCase { v6, puppets, gossip, secs, searches, rt_seed }
+            MaintCase { v6, puppets, gossip, secs, searches, rt_seed, mapped_alias }
         })
         .boxed()
 }
@@ -512,7 +535,7 @@ impl Stage for C19Wire {
         tier.pick(400, 5000)
     }
     fn strategy(&self, tier: Tier) -> BoxedStrategy<MaintCase> {
-        maint_case(300, tier.pick(2400, 3 * 3600), true, 8)
+        maint_case_um(300, tier.pick(2400, 3 * 3600), true, 8, false, true)
     }
     fn watchdog_secs(&self, tier: Tier) -> u64 {
         tier.pick(900, 3600)
@@ -563,7 +586,7 @@ impl Stage for C19Wire {
             .label(format!("search-prefixes:{}", search_prefixes.len().min(4)))
     }
     fn rule(&self) -> String {
-        "maintenance worlds (1..8 contacts, some going silent so that bootstrap attempts fail and are retried, 0..3 user searches for up to 3 info-hashes), 5..40 min (thorough ..3 h); every query the node hands to the network is inspected. Oracle: 8-byte transaction ids; no transaction id is ever sent twice to the same address; a 5-byte activity prefix used for get_peers/announce_peer of one info-hash is never used for another info-hash or for find_node/ping. Non-trivial: > 50 queries and overlapping searches or a contact that went silent (retries)".into()
+        "maintenance worlds (1..8 contacts, some going silent so that bootstrap attempts fail and are retried, 0..3 user searches for up to 3 info-hashes; 30 % of the IPv4 cases list the first contact a second time in its IPv4-mapped IPv6 spelling, which the socket refuses to send to), 5..40 min (thorough ..3 h); every query the node hands to the network is inspected. Oracle: 8-byte transaction ids; no transaction id is ever sent twice to the same address; a 5-byte activity prefix used for get_peers/announce_peer of one info-hash is never used for another info-hash or for find_node/ping. Non-trivial: > 50 queries and overlapping searches or a contact that went silent (retries)".into()
     }
     fn sample(&self, c: &MaintCase) -> serde_json::Value {
         C11Runs.sample(c)
